@@ -11,6 +11,9 @@ EXPLANATION = ('For every call in physical-plan, datasource*, execution, common-
                'forward (`other => return Poll::Ready(other)`). Reported: a match that reads the Ok payload but never the Err payload '
                '(`while let Some(Ok(b)) = input.next()` turns a failed input into end-of-input), an Err payload that is read but goes '
                'nowhere, and results consumed only by ok()/is_ok()/unwrap_or*/`let _`. Each site accepted today is frozen with a reason. '
+               'Fan-out completeness: every loop that sends to each output channel taken from an iterator (the error / end-of-input fan-out of '
+               'RepartitionExec::wait_for_task and any like it) runs until the iterator is exhausted on every path, so a failed send to an '
+               'output that hung up cannot keep the error from the outputs still being read. '
                'Bounded time and absence of hangs are not decided.')
 ASSUMPTIONS = ['flow-insensitive def-use: a payload that reaches a sink on some path counts as handled',
                'error types: DataFusionError, ArrowError, ParquetError, io::Error, object_store::Error, JoinError']
@@ -160,10 +163,16 @@ def item_sites(ctx, facts, scope, rule='error-payload-reaches-sink'):
     return bad, n
 
 
+import fanout
+
+
 def run(ctx):
     f = ctx.facts
     bad, n = item_sites(ctx, f, SCOPE)
     ctx.floor('error-payload-reaches-sink', 'stream-item / task-result call sites', n, 250)
+    # error fan-out: a loop sending the final message / the error to each output channel must reach every channel
+    fanout.check(ctx, 'fan-out-complete', lambda c: (c[1:] if c.startswith('<') else c).startswith(SCOPE),
+                 must_cover=['datafusion_physical_plan::repartition::RepartitionExec::wait_for_task'], floor=1)
     import common
     st = ctx.st
     probe = common.Ctx(ctx.pid, ctx.tier, st, st, {})
